@@ -206,6 +206,7 @@ func (Engine) Describe(prop string) kernel.Describe {
 		Stub: []string{"producers / subscribers -> simulated threads with keyed delays", "readers of the receivers -> goroutines calling Receiver.Next with keyed pauses", "recording wire.Consumer (poly-go Closer + Put that records under its own mutex, never sleeps)",
 			"default message handler -> recorder", "time -> testing/synctest fake clock"},
 		FaultKinds: []string{"yield hooks before every relay lock acquisition, in the cached-delivery goroutine, at delete and at Receiver.Next (buggify subset, keyed park lengths)",
-			"keyed gaps between operations (0..200us)", "slow readers", "consumer close racing with subscribe / put", "burst of parallel puts (real parallelism)"},
+			"keyed gaps between operations (0..200us)", "slow readers", "consumer close racing with subscribe / put", "burst of parallel puts (real parallelism)", "impatient Receiver.Next contexts",
+			"epilogues on a relay of their own: stalled consumer that is closed, 20-80 cached envelopes, 40 consumers closed in a drawn order, caching predicate enabled behind a delivery to a slow (gated) consumer"},
 	}
 }
